@@ -92,8 +92,60 @@ def judge(c, e, o, r):
     return None
 
 
+def judge_multi(m, e, o, r):
+    n_est = sum(1 for x in o["cbs"] if x[0] == "OnEstablished")
+    n_cl = sum(1 for x in o["cbs"] if x[0] == "OnClose")
+    if n_est != n_cl:
+        return "OnEstablished fired %d times but OnClose %d times over %d successive sessions" % (n_est, n_cl, len(m.segs))
+    for k, seg in enumerate(m.segs):
+        if seg.meta["what"].startswith("notif") or seg.meta["what"] in ("fin",):
+            sent = [x for x in o["wire"][k][1:] if x[0] == 3 and x[1][:1] != b"\x06"]
+            if sent:
+                return "session %d: %s answered with NOTIFICATION %s" % (k + 1, seg.meta["what"], sent[0][1].hex())
+    return None
+
+
+def multis(rng, tier):
+    """successive sessions on the same (outbound or inbound) peer: every session's end is handled
+    like the first one's"""
+    out = []
+    sid = 1000
+    enders = [("notif.cease", lambda: S.frame(S.NOTIF, S.notif_body(6, rng.randint(0, 8)))),
+              ("fin", None),
+              ("open", lambda: S.frame(S.OPEN, S.open_body()))]
+    reps = 1 if tier == "quick" else 4
+    for _ in range(reps):
+        for direction in ("out", "in"):
+            for first in ("notif.cease", "fin"):
+                for last, mk in enders:
+                    segs = []
+                    for k, (nm, f) in enumerate([(first, dict(enders)[first]), (last, mk), ] if True else []):
+                        c = S.Conv(sid, direction=direction, tag="multi")
+                        bring_to(c, "established")
+                        if nm == "fin":
+                            c.eof = 1
+                        else:
+                            c.send(f())
+                        c.meta = {"state": "established", "what": nm, "type": 0}
+                        segs.append(c)
+                    if last == "open":
+                        # an unexpected OPEN is a protocol error: the peer is then damped; fine as the last session
+                        pass
+                    m = S.Multi(sid, segs, tag="sessions.%s.then.%s.%s" % (first, last, direction))
+                    m.judge = judge_multi
+                    out.append(m)
+                    sid += 1
+    return out
+
+
 def sys_part(tier, rng, rep, replay):
     cov = sysrun.run_convs(PID, convs(rng, tier), rep)
+    cov2 = sysrun.run_convs(PID, multis(rng, tier), rep)
+    cov["evaluations"] += cov2["evaluations"]
+    cov["distinct_nontrivial"] += cov2["distinct_nontrivial"]
+    cov["traces_validated_against_impl"] += cov2["traces_validated_against_impl"]
+    cov["scenario_streams"].update(cov2["scenario_streams"])
+    cov["successive_sessions"] = {k: cov2[k] for k in ("sys_mismatches", "monitor_violations", "crashes")}
     cov["rule"] = RULE
     return cov
 
